@@ -50,9 +50,38 @@ def cron_match(fields, now):
     return now.minute in mins and now.hour in hrs and now.month in mons and day_ok
 
 
+def weekday_range_match(sp, now, startup, sun):
+    """range(<weekday> t1, <weekday> t2) recurs every week: it runs from the most recent occurrence of the start that is
+    not after `now` to the first occurrence of the end at or after that start."""
+    a, b = sp["start"], sp["end"]
+    start = None
+    for back in range(0, 8):
+        day = now.date() - dt.timedelta(days=back)
+        if day.isoweekday() % 7 == a["date"][1]:
+            t = c06.dt_on_date(a, day, startup, sun)
+            if t <= now:
+                start = t
+                break
+    if start is None:
+        return False
+    for fwd in range(0, 8):
+        day = start.date() + dt.timedelta(days=fwd)
+        if day.isoweekday() % 7 == b["date"][1]:
+            t = c06.dt_on_date(b, day, startup, sun)
+            if t >= start:
+                return start <= now <= t
+    return False
+
+
+def is_weekday_range(sp):
+    return sp["kind"] == "range" and sp["start"]["date"] is not None and sp["start"]["date"][0] == "dow"
+
+
 def spec_match(sp, now, startup, sun):
     if sp["kind"] == "cron":
         return cron_match(sp["fields"], now)
+    if is_weekday_range(sp):
+        return weekday_range_match(sp, now, startup, sun)
     start = dt_for(sp["start"], now, startup, sun)
     end = dt_for(sp["end"], now, startup, sun)
     if start <= end:
@@ -67,7 +96,14 @@ def active(specs, now, startup, sun):
 
 
 def gen_range(R, now):
-    form = R.weighted([(5, "daily"), (2, "dated"), (2, "sun"), (2, "now")])
+    form = R.weighted([(5, "daily"), (2, "dated"), (2, "sun"), (2, "now"), (2, "weekday")])
+    if form == "weekday":
+        # weekly ranges around the current weekday: same day, a few days, wrapping over the week end
+        d0 = (now.isoweekday() + R.choice([0, 0, 6, 5, 1, 3])) % 7
+        d1 = (d0 + R.choice([0, 0, 1, 2, 4, 6])) % 7
+        a = ["hms", R.choice([0, 8, 9, 12, 17]), R.choice([0, 30]), 0]
+        b = ["hms", R.choice([9, 12, 17, 18, 23]), R.choice([0, 59]), 0]
+        return {"kind": "range", "start": {"date": ["dow", d0], "time": a, "off": None, "short": R.bool()}, "end": {"date": ["dow", d1], "time": b, "off": None, "short": R.bool()}}
     if form == "daily":
         a = ["hms", R.choice([0, 1, 6, 8, 10, 12, 20, 22, 23]), R.choice([0, 30, 59]), R.choice([0, 0, 59.5])]
         b = ["hms", R.choice([0, 2, 6, 9, 10, 12, 18, 23]), R.choice([0, 15, 59]), R.choice([0, 0, 0.000001])]
@@ -111,6 +147,12 @@ def endpoints(specs, now, startup, sun):
     for sp in specs:
         if sp["kind"] == "range":
             for d in (sp["start"], sp["end"]):
+                if d["date"] is not None and d["date"][0] == "dow":
+                    for k in range(-7, 8):
+                        day = now.date() + dt.timedelta(days=k)
+                        if day.isoweekday() % 7 == d["date"][1]:
+                            out.append(c06.dt_on_date(d, day, startup, sun))
+                    continue
                 t = dt_for(d, now, startup, sun)
                 if t is not None:
                     out.append(t)
